@@ -10,8 +10,12 @@ use std::net::{SocketAddr, UdpSocket};
 use std::process::{Child, Command, Stdio};
 use std::time::{Duration, Instant};
 
-pub const TFTPD: &str = "/verif/target-repo/release/tftpd";
-pub const TFTPC: &str = "/verif/target-repo/release/tftpc";
+pub fn tftpd_path() -> String {
+    format!("{}/target-repo/release/tftpd", verif_dir())
+}
+pub fn tftpc_path() -> String {
+    format!("{}/target-repo/release/tftpc", verif_dir())
+}
 
 pub struct Proc {
     pub child: Child,
@@ -39,8 +43,8 @@ pub fn udp_client(ipv6: bool) -> UdpSocket {
 
 /// Spawns a fresh tftpd and waits until it answers. Err = could not be started (machinery, not a verdict).
 pub fn spawn_tftpd(extra: &[&str], ipv6: bool) -> Result<Proc, String> {
-    if !std::path::Path::new(TFTPD).exists() {
-        return Err(format!("{TFTPD} missing (./check build)"));
+    if !std::path::Path::new(&tftpd_path()).exists() {
+        return Err(format!("{} missing (./check build)", tftpd_path()));
     }
     for _attempt in 0..10 {
         let n = SEQ.fetch_add(1, std::sync::atomic::Ordering::SeqCst);
@@ -50,7 +54,7 @@ pub fn spawn_tftpd(extra: &[&str], ipv6: bool) -> Result<Proc, String> {
         std::fs::write(format!("{dir}/srv/probe.bin"), probe_content()).map_err(|e| e.to_string())?;
         let port = free_port(ipv6);
         let ip = if ipv6 { "::1" } else { "127.0.0.1" };
-        let mut cmd = Command::new(TFTPD);
+        let mut cmd = Command::new(tftpd_path());
         cmd.args(["-i", ip, "-p", &port.to_string(), "-d", &format!("{dir}/srv")]).args(extra).stdin(Stdio::null()).stdout(Stdio::null()).stderr(Stdio::null());
         let child = cmd.spawn().map_err(|e| format!("spawn: {e}"))?;
         let addr: SocketAddr = format!("{}:{}", if ipv6 { "[::1]" } else { "127.0.0.1" }, port).parse().unwrap();
